@@ -146,7 +146,13 @@ func genG1(r rng, n int, t *testing.T) []*Scenario {
 			for at < span && r.chance(0.6) {
 				d := r.between(h/2, span/2)
 				at += d
-				if r.chance(0.5) {
+				if r.chance(0.15) {
+					// the application cancels the context it passed to Start, and (usually) calls Stop afterwards
+					script = append(script, Action{After: d, Do: "cancel_ctx"})
+					if r.chance(0.7) {
+						script = append(script, Action{After: r.pick(0, 1, h, 4*h), Do: "stop"})
+					}
+				} else if r.chance(0.5) {
 					script = append(script, Action{After: d, Do: "stop"})
 				} else {
 					script = append(script, Action{After: d, Do: "stop_ctx", Delete: r.chance(0.6), Wait: r.chance(0.5),
